@@ -204,8 +204,8 @@ def make_resolver(fn: ast.AST):
             ndefs[x.arg] = ndefs.get(x.arg, 0) + 1
 
     def resolver(name: ast.Name, at):
-        if at is None or ndefs.get(name.id, 0) != 1:
-            return None
+        if at is None or ndefs.get(name.id, 0) < 1:
+            return None  # (a name defined several times is still looked through where exactly one definition reaches)
         defs = rd.reaching(at, name.id)
         if len(defs) != 1 or defs[0].kind != "assign":
             return None
